@@ -434,6 +434,7 @@ pub fn main(args: &Args) -> Result<()> {
       "rank" => family_rank(&mut r, scn, n_req, &mut evs)?,
       "paging" => family_paging(&mut r, scn, n_req, &mut evs)?,
       "relate" => family_relate(&mut r, scn, n_req, &mut evs)?,
+      "vector" => crate::vector::family_vector(&mut r, scn, n_req, &mut evs)?,
       other => anyhow::bail!("unknown search family {other}"),
     };
     total += n;
@@ -447,6 +448,7 @@ pub fn main(args: &Args) -> Result<()> {
 }
 
 /// The request JSON is logged as a string; everything else must already be null-free.
+pub fn _strip_nulls_unused() {}
 fn strip_nulls(v: Value) -> Value {
   v
 }
